@@ -48,6 +48,9 @@ Proof. split; reflexivity. Qed.
 Lemma same_store_outputs : forall now s t, same_store s (write_outputs now s t).
 Proof. split; reflexivity. Qed.
 
+Lemma same_store_child : forall s tid t, same_store s (child_trace s tid t).
+Proof. intros. unfold child_trace. destruct (t_subguard t); split; reflexivity. Qed.
+
 Section Safe.
   Variable matchb : string -> path -> bool.
   Variable H : string -> string.
@@ -56,6 +59,7 @@ Section Safe.
   Hypothesis Hsafe : v_safe v = true.
   Hypothesis Hfp : v_fp_exact v = true.
   Hypothesis Hts : v_ts_exact v = true.
+  Hypothesis Hdfg : v_dry_fail_guard v = true.
 
   Notation uptodate := (uptodate matchb H Hx).
   Notation task_fp := (task_fp matchb).
@@ -142,7 +146,7 @@ Section Safe.
 
   Inductive run_summary (s : state) (m : mode) (t : task) (s' : state) (r : res) : Prop :=
   | RS_skip : m <> Force -> up_formula s t = true -> s' = s -> r = RSkipped -> run_summary s m t s' r
-  | RS_dry : m = Dry -> up_formula s t = false -> same_store s s' -> r = RDry -> run_summary s m t s' r
+  | RS_dry : m = Dry -> up_formula s t = false -> same_store s s' -> (r = RDry \/ r = RFailed) -> run_summary s m t s' r
   | RS_bad : m <> Dry -> (m = Force \/ up_formula s t = false) ->
              (r = RDeclined \/ r = RFailed \/ r = RKilled) ->
              rec_of s' t = None ->
@@ -220,9 +224,10 @@ Section Safe.
       destruct dry eqn:Ed.
       + (* dry run past the check *)
         assert (m = Dry) by (destruct m; subst dry; try discriminate; auto). subst m.
-        cbn [negb andb] in E. rewrite andb_false_r in E. cbn in E.
+        cbn [negb andb] in E. rewrite andb_false_r in E. cbn [andb] in E. rewrite Hdfg in E.
         destruct Hnu as [?|Hnu]; [discriminate|].
-        destruct (v_dry_mkdir_guard v); inversion E; subst; apply RS_dry; auto using same_store_refl, same_store_mkdir.
+        destruct (guard_ok s t); cbn [negb] in E;
+          destruct (v_dry_mkdir_guard v); inversion E; subst; apply RS_dry; auto using same_store_refl, same_store_mkdir.
       + assert (Hnd : m <> Dry) by (intros ->; subst dry; discriminate).
         cbn [negb andb] in E. rewrite andb_true_r in E.
         destruct (t_prompt t && is_prompt_no o).
@@ -233,13 +238,23 @@ Section Safe.
              ++ rewrite rec_on_error_other by auto. now apply rec_invalidate_other.
              ++ now apply rec_invalidate_other.
         * cbn [andb] in E.
-          assert (Hnone : rec_of (mkdir (invalidate v s t) (t_dir t)) t = None).
-          { rewrite (rec_of_same_store (invalidate v s t)) by apply same_store_mkdir. now apply rec_invalidate_same. }
+          destruct (guard_ok s t); cbn [negb] in E.
+          2:{ (* the sub-call fails: a failing command *)
+              inversion E; subst. clear E. apply RS_bad; auto.
+              - now apply rec_on_error_same.
+              - intros t' Hk. rewrite rec_on_error_other by auto.
+                rewrite (rec_of_same_store (invalidate v s t)) by apply same_store_mkdir.
+                now apply rec_invalidate_other. }
+          assert (Hnone : rec_of (child_trace (mkdir (invalidate v s t) (t_dir t)) tid t) t = None).
+          { rewrite (rec_of_same_store (invalidate v s t)).
+            - now apply rec_invalidate_same.
+            - eapply same_store_trans; [apply same_store_mkdir | apply same_store_child]. }
           pose proof (run_cmds_summary _ _ _ _ _ _ _ _ _ Hsrc Hm Hnone E) as [Hr Hoth].
           assert (Hoth' : forall t', rkey t <> rkey t' -> rec_of s' t' = rec_of s t').
           { intros t' Hk. rewrite Hoth by auto.
-            rewrite (rec_of_same_store (invalidate v s t)) by apply same_store_mkdir.
-            now apply rec_invalidate_other. }
+            rewrite (rec_of_same_store (invalidate v s t)).
+            - now apply rec_invalidate_other.
+            - eapply same_store_trans; [apply same_store_mkdir | apply same_store_child]. }
           destruct Hr as [[Hr Hn]|[Hr Hrec]].
           -- apply RS_bad; auto; destruct Hr; auto.
           -- apply RS_ok; auto.
